@@ -132,8 +132,8 @@ theorem sweepAux_sound (suf : List Row) : ∀ (pre : List Row) (c0 c1 : Nat),
       simp only [List.mem_singleton, src_thrSentinel] at hs
       subst hs
       refine ⟨?_, ?_, ?_⟩
-      · simp only [Thr.below, Bool.and_true]; exact hc0
-      · simp only [Thr.below, Bool.and_true]; exact hc1
+      · simp only [Thr.below, src_opGt_eq, Bool.and_true]; exact hc0
+      · simp only [Thr.below, src_opGt_eq, Bool.and_true]; exact hc1
       · intro x _; rfl
     | cons r' rest' =>
       simp only [src_midThreshold] at hs
@@ -163,19 +163,19 @@ theorem sweepAux_sound (suf : List Row) : ∀ (pre : List Row) (c0 c1 : Nat),
           have hb1 : ∀ x ∈ pre ++ [r], (Thr.fin ((r.score + r'.score) / 2)).below x.score = true := by
             intro x hx
             have := hpre x hx
-            simp only [Thr.below, decide_eq_true_eq]; linarith
+            simp only [Thr.below, src_opGt_eq, decide_eq_true_eq]; linarith
           have hb2 : ∀ x ∈ r' :: rest', (Thr.fin ((r.score + r'.score) / 2)).below x.score = false := by
             intro x hx
             have := hsuf x hx
-            simp only [Thr.below, decide_eq_false_iff_not, not_lt]; linarith
+            simp only [Thr.below, src_opGt_eq, decide_eq_false_iff_not, not_lt]; linarith
           have ha1 : ∀ x ∈ pre ++ [r], (Thr.fin ((r.score + r'.score) / 2)).above x.score = false := by
             intro x hx
             have := hpre x hx
-            simp only [Thr.above, decide_eq_false_iff_not, not_lt]; linarith
+            simp only [Thr.above, src_opLt_eq, decide_eq_false_iff_not, not_lt]; linarith
           have ha2 : ∀ x ∈ r' :: rest', (Thr.fin ((r.score + r'.score) / 2)).above x.score = true := by
             intro x hx
             have := hsuf x hx
-            simp only [Thr.above, decide_eq_true_eq]; linarith
+            simp only [Thr.above, src_opLt_eq, decide_eq_true_eq]; linarith
           rw [happ]
           refine ⟨?_, ?_, ?_⟩
           · simp only
@@ -204,8 +204,8 @@ theorem sweepSteps_sound (rows : List Row) : ∀ s ∈ sweepSteps rows, StepSoun
   rw [src_thrInitial] at hs
   rcases List.mem_cons.mp hs with rfl | hs
   · refine ⟨?_, ?_, ?_⟩
-    · simp [Thr.below]
-    · simp [Thr.below]
+    · simp [Thr.below, src_opGt_eq]
+    · simp [Thr.below, src_opGt_eq]
     · intro r _; rfl
   · have := sweepAux_sound (sortDesc rows) [] 0 0 (by simpa using sortDesc_sorted rows) rfl rfl s hs
     exact StepSound.of_perm (by simpa using sortDesc_perm rows) this
@@ -238,10 +238,10 @@ theorem sweepSteps_has_ninf (rows : List Row) (hne : rows ≠ []) :
   have hs := sweepSteps_sound rows _ hmem
   have ha : a = nNeg rows := by
     have := hs.1; simp only at this
-    rw [this]; unfold nNeg; exact countP_eq_of_forall (fun r _ => by simp [Thr.below])
+    rw [this]; unfold nNeg; exact countP_eq_of_forall (fun r _ => by simp [Thr.below, src_opGt_eq])
   have hb : b = nPos rows := by
     have := hs.2.1; simp only at this
-    rw [this]; unfold nPos; exact countP_eq_of_forall (fun r _ => by simp [Thr.below])
+    rw [this]; unfold nPos; exact countP_eq_of_forall (fun r _ => by simp [Thr.below, src_opGt_eq])
   rw [← ha, ← hb]; exact hmem
 
 theorem sweepSteps_has_pinf (rows : List Row) : (Thr.pinf, 0, 0) ∈ sweepSteps rows := by
